@@ -112,7 +112,7 @@ def run(tier):
         chk.add_mc(r0, "MC_Contrib")
     dates = change_dates("2015-01-01" if quick else "2003-04-01")
     if quick:
-        dates = sorted(set(dates[-4:]) | set(rnd.sample(dates[:-4], min(4, len(dates) - 4))) | {"2015-01-01"})
+        dates = sorted(set(dates[-4:]) | set(rnd.sample(dates[:-4], min(4, len(dates) - 4))) | {"2015-01-01", "2017-01-01"})
     jobs = [(d, ost, rnd.randrange(1 << 30), 50.0 if quick else 20.0) for d in dates for ost in ((False, True) if not quick else (rnd.random() < 0.5,))]
     outs = pool_map(sweep_job, jobs)
     tjobs, metas = [], []
@@ -126,7 +126,11 @@ def run(tier):
             k += 1
         for m in ms:
             if "error" in m:
-                chk.violation(f"C19|raised|date={m['date']}|{m['error'][:50]}", "the wage sweep raised", m)
+                if m["date"] < "2015-01-01":      # outside the quantifier of C19: recorded, not judged
+                    chk.notes.setdefault("sweeps_before_2015_that_raised", []).append(f"{m['date']}: {m['error'][:80]}")
+                else:
+                    d = m["date"]
+                    chk.violation(f"C19|raised|half={d[:4]}H{1 if d[5:7] <= '06' else 2}|date={d}|{m['error'][:50]}", "the wage sweep raised", m)
     res = pool_map(_judge_one, tjobs)
     seen = set()
     npts = 0
